@@ -16,6 +16,8 @@
 (*          owned by peers rain has already closed; running                *)
 (*   Honest the honest peer's transfer completed with the right bytes      *)
 (*   Mem    bytes allocated by the client process during the scenario      *)
+(*   Reconn after Stop + Start: the address that was in its handshake at   *)
+(*          Stop can connect again                                         *)
 (*   Proc   the child process crashed / its torrent loop hung              *)
 (* Reader level (real peerreader over net.Pipe):                           *)
 (*   RInit / RFeed (class written) / RGot (message delivered) / REnd       *)
@@ -120,9 +122,16 @@ TrHonest ==
     /\ UNCHANGED vars /\ KeepR
     /\ Nxt(IF Ev.ok = 1 THEN "" ELSE "C08.honest/transfer")
 
+\* @obligation C08.dropOrHandle/ip-blocked-after-stop  an address whose connection was still in its handshake when the
+\* torrent was stopped is dropped for good: after the restart it can connect again
+TrReconn ==
+    /\ Ev.op = "Reconn"
+    /\ UNCHANGED vars /\ KeepR
+    /\ Nxt(IF Ev.ok = 1 THEN "" ELSE "C08.dropOrHandle/ip-blocked-after-stop")
+
 \* @obligation C08.alloc/session  bytes allocated by the whole client during one scenario (<= 10 messages, torrent of
-\* ~116 KiB, max message size 64 KiB) stay far below anything a length / size field of a message could ask for
-SessionAllocBound == 16777216
+\* ~380 KiB, max message size 64 KiB) stay far below anything a length / size field of a message could ask for
+SessionAllocBound == 33554432
 TrMem ==
     /\ Ev.op = "Mem"
     /\ UNCHANGED vars /\ KeepR
@@ -182,7 +191,7 @@ TrRAlloc ==
 
 TraceNext ==
     /\ l <= Len(Trace)
-    /\ \/ TrInit \/ TrMsg \/ TrStop \/ TrObs \/ TrAdvance \/ TrLoop \/ TrHonest \/ TrProc \/ TrMem
+    /\ \/ TrInit \/ TrMsg \/ TrStop \/ TrObs \/ TrAdvance \/ TrLoop \/ TrHonest \/ TrProc \/ TrMem \/ TrReconn
        \/ TrRInit \/ TrRFeed \/ TrRGot \/ TrREnd \/ TrRAlloc
 
 TraceSpec == TraceInit /\ [][TraceNext]_tvars
